@@ -140,7 +140,7 @@ func realLinks(t *testing.T, rep *kit.Report, env kit.Env, evals, nontrivial *in
 							for {
 								select {
 								case f := <-b.TunDevice().SendFrame:
-									if bytes.Equal(f.MessageData(), pk) {
+									if bytes.Equal(kit.TunBytesOrNil(f), pk) {
 										got++
 									} else {
 										rep.Violate("real-links/traffic-altered", fmt.Sprintf("B's interface was handed bytes that differ from the %d-byte packet: %s", n, desc), desc)
